@@ -517,9 +517,9 @@ class ResultQuantifier(CanBehaveLikeAVariable[T], ABC):
         Evaluate the query and map the results to the correct output data structure.
         This is the exposed evaluation method for users.
         """
-        SymbolGraph().remove_dead_instances()
         for expression in self._all_nodes_:
             expression._reset_evaluation_state_()
+        SymbolGraph().remove_dead_instances()
         yield from map(self._process_result_, self._evaluate__())
 
     def _evaluate__(
@@ -715,6 +715,13 @@ class QueryObjectDescriptor(SymbolicExpression[T], ABC):
         for variable in self.selected_variables:
             variable._var_._node_.enclosed = True
 
+    def _reset_evaluation_state_(self) -> None:
+        super()._reset_evaluation_state_()
+        # a selected variable that no condition mentions is not below this node in the expression graph
+        for variable in self.selected_variables:
+            for expression in variable._all_nodes_:
+                expression._reset_evaluation_state_()
+
     @lru_cache(maxsize=None)
     def _projection_(self, when_true: Optional[bool] = True) -> HashedIterable[int]:
         """
@@ -901,6 +908,11 @@ class From:
     """
     The domain to use for the symbolic variable.
     """
+    from_symbol_graph: bool = False
+    """
+    True if no domain was given and the domain is the instances of the variable's type known to the SymbolGraph. Such a
+    domain is read anew by every evaluation, so that the variable ranges over the instances that exist at that time.
+    """
 
 
 @dataclass(eq=False, repr=False)
@@ -966,6 +978,13 @@ class Variable(CanBehaveLikeAVariable[T]):
         self._child_ = None
         if self._domain_source_:
             self._update_domain_(self._domain_source_.domain)
+
+    def _reset_evaluation_state_(self) -> None:
+        super()._reset_evaluation_state_()
+        if self._domain_source_ and self._domain_source_.from_symbol_graph:
+            # not the instances an earlier evaluation of the query has seen, but the ones that exist now
+            self._domain_ = HashedIterable()
+            self._update_domain_(SymbolGraph().get_instances_of_type(self._type_))
 
     def _update_domain_(self, domain):
         if domain:
